@@ -107,7 +107,7 @@ def job(cfg):
     mod = made_t if cfg["copy"] == "transforms" else made_n
     name = "MADE[%s]/F=%d,H=%d,blocks=%d,%s,%s,ctx=%s,mult=%d,bn=%s,drop=%s%s" % (
         cfg["copy"], cfg["F"], cfg["H"], cfg["blocks"], "residual" if cfg["residual"] else "feedforward", "random" if cfg["random"] else "sequential",
-        cfg["ctx"], cfg["mult"], cfg["bn"], cfg["dropout"], ",MoG" if cfg.get("mog") else "")
+        cfg["ctx"], cfg["mult"], cfg["bn"], cfg["dropout"], (",MoG" if cfg.get("mog") else "") + (",weights-replaced-after-a-first-pass" if cfg.get("reweight") else "") + (",training" if cfg.get("train") else ""))
     jr = C01.new_jr("MADE[%s]" % cfg["copy"])
     jr["paths"] = 1
     sc.BOOL_TO_NUM[0] = "ite"
@@ -139,6 +139,12 @@ def job(cfg):
             c.fill(TS.arbitrary(Fn))
             ctx = Sym(c)
         with stubs.torch_patches(random=False):
+            if cfg.get("reweight"):
+                # "every weight" includes weights that arrive after the network has already been evaluated (a loaded
+                # state dict, an optimiser step): one pass, all parameters replaced by new arbitrary values, then the
+                # pass that is judged
+                net(Sym(x.copy()), ctx) if ctx is not None else net(Sym(x.copy()))
+                taint_params(net, Fn)
             out = net(Sym(x), ctx) if ctx is not None else net(Sym(x))
     except explore.NotModelled as e:
         jr["inconclusive"].append({"query": name, "notmodelled": str(e)})
@@ -211,12 +217,15 @@ def replay(cfg, degs):
     try:
         with stubs.patched((torch, "randint", randint)):
             net, mult = build(cfg, [0])
-        net.eval()
+        net.train() if cfg.get("train") else net.eval()
+        x = torch.randn(1, cfg["F"], requires_grad=False)
+        ctx = torch.randn(1, cfg["ctx"]) if cfg["ctx"] is not None else None
+        if cfg.get("reweight"):
+            with torch.no_grad():
+                net(x, ctx) if ctx is not None else net(x)  # the earlier evaluation of the recorded history
         for p in net.parameters():
             with torch.no_grad():
                 p.copy_(torch.randn_like(p))
-        x = torch.randn(1, cfg["F"], requires_grad=False)
-        ctx = torch.randn(1, cfg["ctx"]) if cfg["ctx"] is not None else None
         J = torch.autograd.functional.jacobian(lambda z: net(z, ctx) if ctx is not None else net(z), x)[0, :, 0, :]
         worst = 0.0
         for u in range(J.shape[0]):
@@ -247,6 +256,11 @@ def configs(tier):
                         cfgs.append({"copy": copy, "F": Fn, "H": H, "blocks": b, "mult": mult, "residual": residual, "random": random, "ctx": ctx, "bn": bn, "dropout": drop, "timeout": t})
         # the constructor must refuse residual blocks with random masks
         cfgs.append({"copy": copy, "F": 3, "H": 4, "blocks": 1, "mult": 1, "residual": True, "random": True, "ctx": None, "bn": False, "dropout": 0.0, "timeout": t})
+        # weights replaced after a first evaluation (eval and training mode)
+        for Fn, H, b in ((2, 2, 0), (3, 3, 1), (3, 4, 2)):
+            for residual, random in ((True, False), (False, True)):
+                for train in (False, True):
+                    cfgs.append({"copy": copy, "F": Fn, "H": H, "blocks": b, "mult": 2, "residual": residual, "random": random, "ctx": None, "bn": False, "dropout": 0.0, "reweight": True, "train": train, "timeout": t})
     # mixture-of-Gaussians MADE (output multiplier 3 * components), nde copy only
     for Fn, H, comps in itertools.product((1, 2, 3) if tier == "quick" else (1, 2, 3, 4), (2, 4) if tier == "quick" else (2, 4, 6), (1, 2) if tier == "quick" else (1, 2, 3)):
         for residual, random in ((True, False), (False, True)):
